@@ -229,6 +229,10 @@ class CompositeCounter:
             p.add_unaligned(n_reads)
 
 
+# lines that merge_counts appends after the features of a count table
+COUNT_TABLE_TRAILER = ("__ambiguous", "__no_feature", "__not_aligned")
+
+
 # count meta-features assigned to reads (genes or isoforms)
 # get_feature_id --- function that returns feature id form IsoformMatch object
 class AssignedFeatureCounter(AbstractCounter):
@@ -408,7 +412,7 @@ class AssignedFeatureCounter(AbstractCounter):
         total_counts = defaultdict(float)
         with open(self.output_counts_file_name) as f:
             for line in f:
-                if line.startswith('_'): break
+                if line.split('\t', 1)[0] in COUNT_TABLE_TRAILER: break
                 if line.startswith('#'): continue
                 fs = line.rstrip().split('\t')
                 if self.ignore_read_groups:
@@ -431,7 +435,7 @@ class AssignedFeatureCounter(AbstractCounter):
         with open(self.output_tpm_file_name, "w") as outf:
             with open(self.output_counts_file_name) as f:
                 for line in f:
-                    if line.startswith('_'): break
+                    if line.split('\t', 1)[0] in COUNT_TABLE_TRAILER: break
                     if line.startswith('#'):
                         outf.write(line.replace("count", "TPM"))
                         continue
